@@ -551,3 +551,20 @@ SPECS["C20"] = dict(
     floor_evals={"quick": 1000, "thorough": 40000},
     floor_nontrivial={"quick": 1000, "thorough": 40000},
 )
+
+SPECS["C18"] = v1spec(
+    "TestVerifC18", "commentparser", ["commentparser"],
+    title="comment extraction returns exactly the comments of a source file",
+    exhaustive=True,
+    technique="differential against a reference lexer driven only by the public language tables; exhaustive short programs + seeded long ones",
+    rule=("For each of the 48 languages (Unknown..Yaml): EVERY source string of length <= 6 (quick; 5 for 9-symbol alphabets) / 7 (thorough; 6 for 9-symbol alphabets) over that language's alphabet "
+          "(its delimiter characters, quote characters, backslash, newline, one letter, space; <= 9 symbols) is parsed and compared with the reference lexer: same number of comments, same 1-based start/end lines, same "
+          "delimiter-free text (invalid bytes compared as U+FFFD); a panic is caught, a hang is caught by the per-case watchdog (double-confirmed). Plus seeded programs of 200-2000 lexemes with adjacency forced "
+          "(strings containing comment starts, empty comments, escapes, raw strings, docstrings, invalid UTF-8). ChunkIterator: every list of <= 5/6 comments with line gaps 0-3 and lengths 1-3, and the parser's real "
+          "outputs: chunks concatenate to the comment list and are the maximal runs under the adjacency the pinned test defines (next.StartLine <= prev.StartLine+1). exhaustive=true refers to these bounded spaces. "
+          "case = the strings below one first symbol of one language / 20 random programs / the lists below one first comment; distinct = case."),
+    shards={"quick": 1, "thorough": 2}, workers={"quick": 16, "thorough": 8},
+    floor_evals={"quick": 400, "thorough": 1500},
+    floor_nontrivial={"quick": 400, "thorough": 1500},
+    timeout={"quick": 1500, "thorough": 3 * 3600},
+)
